@@ -41,6 +41,9 @@ fn members(k: &KeyPlan) -> Vec<(String, String, String)> {
     for (name, val) in &a.vars {
         v.push((name.clone(), format!("{} = {}", name, rust_str(val)), format!("{} = {}", name, rust_str(val))));
     }
+    for (name, val) in &a.fvars {
+        v.push((name.clone(), format!("{} = {}", name, val.rust()), format!("{} = move || {}", name, val.rust())));
+    }
     if let Some((name, kind, probes)) = &a.loop_var {
         let n = probes.iter().find(|n| !matches!(n, Num::Float(_)) || !matches!(kind, CountKind::Plural)).copied().unwrap_or(probes[0]);
         let lit = num_literal(n, kind);
@@ -210,6 +213,7 @@ struct Pkg {
 fn build_main(probes_src: Vec<(usize, String, String)>) -> (String, Vec<Probe>) {
     let mut s = String::from(emit::PRELUDE);
     s.push_str("fn fd(s: &str) -> &'static leptos_i18n::reexports::fixed_decimal::FixedDecimal {\n    Box::leak(Box::new(s.parse().unwrap()))\n}\n");
+    s.push_str(emit::FMT_HELPERS);
     let mut probes = vec![];
     for (i, (key_idx, kind, code)) in probes_src.into_iter().enumerate() {
         let line = s.lines().count() + 1;
@@ -240,7 +244,7 @@ pub fn run(mut ctx: Ctx, which: &str) -> ! {
             break;
         }
         let Some((project, plan, style_seed)) = project_for(&tape, &rp) else { continue };
-        let keys: Vec<KeyPlan> = plan.keys.into_iter().filter(|k| !k.has_formatter).collect();
+        let keys: Vec<KeyPlan> = plan.keys.into_iter().filter(|k| !k.has_formatter || rp.opts.formatters).collect();
         let src: Vec<(usize, String, String)> = if which == "C08" {
             keys.iter().flat_map(|k| c08_probes(k).into_iter().map(move |(kind, code)| (k.idx, kind, code))).collect()
         } else {
@@ -399,6 +403,9 @@ pub fn run(mut ctx: Ctx, which: &str) -> ! {
                 if let Some((n, kinds)) = per_key.get(&k.idx) {
                     let mut classes: Vec<String> = kinds.iter().filter(|k| *k != "positive").map(|k| format!("probe:{k}")).collect();
                     classes.extend(crate::plan::count_reuse_classes(k));
+                    if k.has_formatter {
+                        classes.push("key-with-formatted-variable".to_string());
+                    }
                     classes.sort();
                     classes.dedup();
                     ctx.record(CaseInfo {
@@ -447,18 +454,23 @@ fn cfg_c08() -> RenderProp {
             max_pieces: 4,
             max_comp_depth: 2,
             fk_to_null: true,
+            formatters: true,
+            p_formatter: 25,
+            fmt_no_zoned_time: true,
             ..GenCfg::default()
         },
         opts: PlanOpts {
             assignments: 1,
             max_counts: 4,
+            formatters: true,
             ..PlanOpts::default()
         },
         packages: (40, 320),
         tape_len: 2000,
         nontrivial: |k| k.multi_locale_sig,
         classes: |_| vec![],
-        rule: "generated packages whose keys differ per locale in kind and member sets; per key one positive call of td_string! and td! \
+        rule: "generated packages whose keys differ per locale in kind and member sets (a quarter of the variables carry a formatter and \
+               are supplied as typed values); per key one positive call of td_string! and td! \
                with exactly the union set (must type-check for every locale: the locale is a run-time value) and negative probes: each \
                member omitted in turn (both back-ends), an unknown variable, an unknown component, an unknown sibling key, a wrongly \
                typed count; per 16 packages `cargo check --message-format=json` runs twice: first on the valid calls alone (no \
